@@ -38,6 +38,7 @@ enum Kind {
     HeaderOnlyError,
     HeaderOnlyErrorWrongId,
     Truncated,
+    TruncatedWithAnswer,
     Foreign,
     Close,
     CaseChanged,
@@ -80,6 +81,7 @@ fn kind_name(k: Kind) -> &'static str {
         Kind::HeaderOnlyError => "header-only-error",
         Kind::HeaderOnlyErrorWrongId => "header-only-error-wrong-id",
         Kind::Truncated => "truncated",
+        Kind::TruncatedWithAnswer => "truncated-with-answer",
         Kind::Foreign => "foreign-answer",
         Kind::Close => "close",
         Kind::CaseChanged => "case-changed",
@@ -105,7 +107,7 @@ fn reply(rng: &mut Rng, req: &[u8], kind: Kind, via: u8, foreign: Option<&[u8]>)
             qname[p] = if qname[p] == b'x' { b'y' } else { b'x' };
         }
         Kind::NotResponse => flags &= 0x7fff,
-        Kind::Truncated => flags |= 0x0200,
+        Kind::Truncated | Kind::TruncatedWithAnswer => flags |= 0x0200,
         Kind::CaseChanged => {
             for b in qname.iter_mut() {
                 if b.is_ascii_lowercase() && rng.bool() {
@@ -322,7 +324,7 @@ fn gen_script(rng: &mut Rng, path_has_stream: bool, dgram: bool) -> Script {
             0 => None, // nothing more: lost
             1 => Some(Act { delay_ms: rng.range(2500, 9000) as u64, kind: Kind::Good }), // late
             2 => Some(Act { delay_ms: rng.range(0, 300) as u64, kind: Kind::HeaderOnlyError }),
-            3 if dgram => Some(Act { delay_ms: rng.range(0, 300) as u64, kind: Kind::Truncated }),
+            3 if dgram => Some(Act { delay_ms: rng.range(0, 300) as u64, kind: if rng.bool() { Kind::Truncated } else { Kind::TruncatedWithAnswer } }),
             4 if path_has_stream && !dgram => Some(Act { delay_ms: rng.range(0, 600) as u64, kind: Kind::Close }),
             5 => Some(Act { delay_ms: rng.range(0, 300) as u64, kind: Kind::CaseChanged }),
             _ => Some(Act { delay_ms: rng.range(0, 900) as u64, kind: Kind::Good }),
@@ -356,6 +358,7 @@ struct Setup {
     budget: Duration,
     has_stream: bool,
     has_dgram: bool,
+    resp_timeout: Duration,
 }
 
 fn build(transport: &str, peer: &Arc<Peer>, rng: &mut Rng, scale: u64) -> Setup {
@@ -372,18 +375,18 @@ fn build(transport: &str, peer: &Arc<Peer>, rng: &mut Rng, scale: u64) -> Setup 
     mc.set_response_timeout(resp_timeout);
     let dg_budget = read_timeout * (retries as u32 + 1);
     match transport {
-        "dgram" => Setup { conn: Box::new(dgram::Connection::with_config(DgConnect { peer: peer.clone() }, dc)), budget: dg_budget * 110, has_stream: false, has_dgram: true },
+        "dgram" => Setup { conn: Box::new(dgram::Connection::with_config(DgConnect { peer: peer.clone() }, dc)), budget: dg_budget * 110, has_stream: false, has_dgram: true, resp_timeout },
         "stream" => {
             let (client, server) = tokio::io::duplex(1 << 16);
             tokio::spawn(serve_stream(peer.clone(), server));
             let (conn, tr) = stream::Connection::<RequestMessage<Vec<u8>>, domain::net::client::request::RequestMessageMulti<Vec<u8>>>::with_config(client, sc);
             tokio::spawn(tr.run());
-            Setup { conn: Box::new(conn), budget: resp_timeout * 4, has_stream: true, has_dgram: false }
+            Setup { conn: Box::new(conn), budget: resp_timeout * 4, has_stream: true, has_dgram: false, resp_timeout }
         }
         "multi_stream" => {
             let (conn, tr) = multi_stream::Connection::with_config(StConnect { peer: peer.clone() }, mc);
             tokio::spawn(tr.run());
-            Setup { conn: Box::new(conn), budget: resp_timeout * 8, has_stream: true, has_dgram: false }
+            Setup { conn: Box::new(conn), budget: resp_timeout * 8, has_stream: true, has_dgram: false, resp_timeout }
         }
         "dgram_stream" => {
             let mut c = dgram_stream::Config::new();
@@ -391,7 +394,7 @@ fn build(transport: &str, peer: &Arc<Peer>, rng: &mut Rng, scale: u64) -> Setup 
             c.set_stream(mc);
             let (conn, tr) = dgram_stream::Connection::with_config(DgConnect { peer: peer.clone() }, StConnect { peer: peer.clone() }, c);
             tokio::spawn(tr.run());
-            Setup { conn: Box::new(conn), budget: dg_budget * 110 + resp_timeout * 8, has_stream: true, has_dgram: true }
+            Setup { conn: Box::new(conn), budget: dg_budget * 110 + resp_timeout * 8, has_stream: true, has_dgram: true, resp_timeout }
         }
         "redundant" => {
             let (conn, tr) = redundant::Connection::new();
@@ -404,7 +407,7 @@ fn build(transport: &str, peer: &Arc<Peer>, rng: &mut Rng, scale: u64) -> Setup 
                 let _ = conn2.add(Box::new(c1)).await;
                 let _ = conn2.add(Box::new(c2)).await;
             });
-            Setup { conn: Box::new(conn), budget: dg_budget * 110 + resp_timeout * 8, has_stream: true, has_dgram: true }
+            Setup { conn: Box::new(conn), budget: dg_budget * 110 + resp_timeout * 8, has_stream: true, has_dgram: true, resp_timeout }
         }
         _ => {
             let (conn, tr) = load_balancer::Connection::new();
@@ -417,7 +420,7 @@ fn build(transport: &str, peer: &Arc<Peer>, rng: &mut Rng, scale: u64) -> Setup 
                 let _ = conn2.add("a", &cc, Box::new(c1)).await;
                 let _ = conn2.add("b", &cc, Box::new(c2)).await;
             });
-            Setup { conn: Box::new(conn), budget: dg_budget * 220, has_stream: false, has_dgram: true }
+            Setup { conn: Box::new(conn), budget: dg_budget * 220, has_stream: false, has_dgram: true, resp_timeout }
         }
     }
 }
@@ -441,9 +444,12 @@ fn one_case(c: &mut Ctx, fam: &str, idx: u64) {
         1 => rng.range(20, 60),
         _ => rng.range(3, 16),
     };
+    // a silent peer under a trickle of requests (plain stream transport, real time): one request every half response timeout
+    let trickle = transport == "stream" && idx % 60 == 1;
+    let n = if trickle { rng.range(12, 18) } else { n };
     // every fourth case the peer is honest: each request is answered once, correctly, in time, in any order
-    let clean = idx % 4 == 2;
-    let waves = if clean { 1 } else { rng.range(1, 3) };
+    let clean = idx % 4 == 2 && !trickle;
+    let waves = if clean || trickle { 1 } else { rng.range(1, 3) };
     let has_stream = matches!(transport, "stream" | "multi_stream" | "dgram_stream" | "redundant");
     let names: Vec<Vec<u8>> = (0..n)
         .map(|k| {
@@ -459,6 +465,9 @@ fn one_case(c: &mut Ctx, fam: &str, idx: u64) {
         let mut sc = gen_script(&mut rng, has_stream, matches!(transport, "dgram" | "dgram_stream" | "load_balancer"));
         if clean {
             sc = vec![vec![Act { delay_ms: rng.range(0, 800) as u64, kind: Kind::Good }]];
+        }
+        if trickle {
+            sc = vec![vec![], vec![], vec![]];
         }
         if transport == "stream" {
             for a in sc.iter_mut().flat_map(|x| x.iter_mut()) {
@@ -490,9 +499,12 @@ fn one_case(c: &mut Ctx, fam: &str, idx: u64) {
                     // a pause longer than every timeout: slots are freed and reused afterwards
                     tokio::time::sleep(Duration::from_millis(rng2.range(3500, 12000) as u64 / scale)).await;
                 }
+                if trickle && k > 0 {
+                    tokio::time::sleep(setup.resp_timeout / 2).await;
+                }
                 let conn = conn.clone();
                 let qn = qn.clone();
-                let stagger = rng2.range(0, 50) as u64;
+                let stagger = if trickle { 0 } else { rng2.range(0, 50) as u64 };
                 handles.push(tokio::spawn(async move {
                     tokio::time::sleep(Duration::from_millis(stagger)).await;
                     let t0 = tokio::time::Instant::now();
@@ -513,13 +525,13 @@ fn one_case(c: &mut Ctx, fam: &str, idx: u64) {
                     Err(e) => out.push(Done { k: usize::MAX, qname: vec![], result: Err(format!("task: {}", e)), elapsed: Duration::ZERO, timed_out: false }),
                 }
             }
-            (out, budget, setup.has_stream, setup.has_dgram)
+            (out, budget, setup.has_stream, setup.resp_timeout)
             
         })
     });
     let _ = hard;
     let ex = json!({"transport": transport, "requests": n, "waves": waves, "refused_connects": refuse});
-    let (done, budget, _hs, _hd) = match res {
+    let (done, budget, _hs, resp_timeout) = match res {
         Ok(x) => x,
         Err(pi) => {
             c.violation(&format!("panic:{}", pi.site()), &format!("panic in the {} client transport: {} at {}:{}", transport, pi.msg, pi.file, pi.line), c.replay_of(fam, idx, ex));
@@ -570,6 +582,10 @@ fn one_case(c: &mut Ctx, fam: &str, idx: u64) {
         }
         // in real time the machine's load is part of the latency: only an order of magnitude counts
         let allowed = if real_time { budget * 10 + Duration::from_secs(2) } else { budget };
+        if trickle && d.elapsed > resp_timeout * 3 + Duration::from_secs(1) {
+            c.violation("completes-late:stream:silent-peer-under-a-trickle-of-requests", &format!("request {} over the stream transport failed only after {:?}; the response timeout is {:?} and the peer never said a word (later requests must not keep earlier ones waiting)", d.k, d.elapsed, resp_timeout), rp(c, json!({})));
+            return;
+        }
         if d.elapsed > allowed {
             c.violation(&format!("completes-late:{}", transport), &format!("request {} over {} completed after {:?}; the configured timeouts and retries add up to less than {:?}", d.k, transport, d.elapsed, budget), rp(c, json!({})));
             return;
@@ -629,6 +645,9 @@ fn one_case(c: &mut Ctx, fam: &str, idx: u64) {
     }
     c.count("requests_answered", oks);
     c.count(&format!("cases:{}", transport), 1);
+    if trickle {
+        c.count("trickle_cases", 1);
+    }
     if clean {
         c.count("honest_peer_cases", 1);
     }
